@@ -39,7 +39,7 @@ ASSUMPTIONS = [
     'appendix D)',
 ]
 
-FLOORS = {'attach': 2, 'detach': 2, 'methods_with_sites': 4}
+FLOORS = {'attach': 1, 'detach': 1, 'methods_with_sites': 2}
 
 
 def relay_target(program, rep):
